@@ -51,7 +51,9 @@ def cases(draw, isa, archs, kernels):
         # scan quadratic (every flag destination is followed through the whole kernel), a minute per case
         cands = [l for l in instr if l.strip().startswith(("v",) if isa == "x86" else ("f", "ld", "st"))]
         if cands:
-            body = [draw(st.sampled_from(cands))] * draw(st.sampled_from([210, 260]))
+            # a few lines of a second instruction make the totals non-integral (211.25, 100.67 ...)
+            body = [draw(st.sampled_from(cands))] * draw(st.sampled_from([210, 260, 302])) + \
+                [draw(st.sampled_from(cands))] * draw(st.integers(0, 7))
         else:
             body = list(instr)
     else:
